@@ -182,7 +182,7 @@ def facts(config="release", overrides=None, optlevel=0, extra_sources=None):
             m["is_extra"] = not src.startswith(os.path.join(REPO, "src"))
             mods.append(m)
             os.unlink(js)
-    res = {"modules": mods, "config": config, "values": vals, "units": units, "optlevel": optlevel}
+    res = {"modules": mods, "config": config, "values": vals, "units": units, "optlevel": optlevel, "workdir": work}
     _cache[key] = res
     return res
 
